@@ -174,11 +174,41 @@ def var_modifiers(var_name: str) -> List[str]:
     """
     if not isinstance(var_name, str):
         return []
-    if var_name.startswith("__"):
+    # (the name can be an instance of a subclass of str, e.g. a key of a dict)
+    if str.startswith(var_name, "__"):
         return ['private']
-    if var_name.startswith("_"):
+    if str.startswith(var_name, "_"):
         return ['protected']
     return []
+
+
+def type_name(variable_type) -> str:
+    """
+    Get the name of a type.
+
+    The name is read from the type itself: a metaclass can make `.__name__` run any code, or give anything.
+
+    :param variable_type: the type
+    :return: the name of the type
+    """
+    try:
+        name = type.__dict__['__name__'].__get__(variable_type)
+    except BaseException:
+        name = None
+    return name if type(name) is str else '?'
+
+
+def plain_str(text) -> str:
+    """
+    Get the text as a plain str.
+
+    str() can give an instance of a subclass of str (when a `__str__` returns one), which can redefine what slicing,
+    len() or encode() do.
+
+    :param text: a str, or an instance of a subclass of str
+    :return: the same text as a str
+    """
+    return text if type(text) is str else str.__str__(text)
 
 
 def safe_str(value) -> str:
@@ -189,7 +219,7 @@ def safe_str(value) -> str:
     :return: the result of str(value), or a place holder if the value cannot be converted to a string
     """
     try:
-        return str(value)
+        return plain_str(str(value))
     except BaseException:
         # we cannot know what user code will raise, and it must never abort the collection of the other variables
         return f'{type(value)}@{id(value)}'
@@ -203,17 +233,17 @@ def variable_to_string(variable_type, var_value):
     :param var_value: the variable value
     :return: a string of the value
     """
-    if variable_type.__name__ in ITER_LIKE_TYPES:
+    if type_name(variable_type) in ITER_LIKE_TYPES:
         # if interator like then make a custom string - we do not want to mess with iterators
         return 'Iterator of type: %s' % variable_type
     try:
         if variable_type is dict \
-                or variable_type.__name__ in LIST_LIKE_TYPES:
+                or type_name(variable_type) in LIST_LIKE_TYPES:
             # if we are a collection then we do not want to use built in string as this can be very
             # large, and quite pointless, instead we just get the size of the collection
             return 'Size: %s' % len(var_value)
         # everything else just gets a string value
-        return str(var_value)
+        return plain_str(str(var_value))
     except BaseException:
         # it is possible for str (or len) to fail if there is a custom __str__ function, we cannot know what
         # user code will raise, and it must never abort the collection of the other variables
@@ -253,7 +283,7 @@ def process_variable(var_collector: Collector, node: NodeValue) -> VariableRespo
                                                     var_collector.max_string_length)
 
     # create a variable for the lookup
-    variable = Variable(str(variable_type.__name__), variable_value_str, identity_hash_id, [], truncated)
+    variable = Variable(type_name(variable_type), variable_value_str, identity_hash_id, [], truncated)
     # add to lookup
     var_collector.append_variable(var_id, variable)
     # return result - and expand children
@@ -290,7 +320,7 @@ def process_child_nodes(
     """
     variable_type = type(var_value)
     # if the type is a type we do not want children from - return empty
-    if variable_type.__name__ in NO_CHILD_TYPES:
+    if type_name(variable_type) in NO_CHILD_TYPES:
         return []
 
     # if the depth is more than we are configured - return empty
